@@ -159,8 +159,10 @@ def minimal_sufficient_subsets(system: str, limit: Optional[int] = None, rng=Non
     return out
 
 
-def random_invariant(system: str, nrows: int, rng) -> numpy.ndarray:
-    """nrows x 21: random points of the invariant subspace; every non-zero component has |value| >= 1 at all rows."""
+def random_invariant(system: str, nrows: int, rng, zero_one_row: bool = False) -> numpy.ndarray:
+    """nrows x 21: random points of the invariant subspace; every non-zero component has |value| >= 1 at all rows.
+    zero_one_row: additionally one independent component (and whatever is proportional to it) is EXACTLY 0 at one of the
+    rows (a component that changes sign and is tabulated as 0.0 there) while being >= 1 in magnitude at the others."""
     info = invariant_basis(system)
     B = info["B"]
     for _ in range(200):
@@ -168,12 +170,18 @@ def random_invariant(system: str, nrows: int, rng) -> numpy.ndarray:
         coef = coef * (1.0 + 0.05 * numpy.arange(nrows)[:, None])      # smooth-ish volume dependence
         T = coef @ B.T
         if all(numpy.all(numpy.abs(T[:, i]) >= 1.0) for i in info["nonzero"]):
+            if zero_one_row and nrows >= 2 and info["k"] >= 1:
+                j = int(rng.integers(0, info["k"])); r = int(rng.integers(0, nrows))
+                coef[r, j] = 0.0
+                T = coef @ B.T
             return T
     raise RuntimeError("could not draw an invariant tensor away from zero")
 
 
 # ----------------------------------------------------------------------------- implementation side
-def make_frame(columns: Sequence[str], values: Sequence[Sequence[float]], int_cols: Sequence[str] = ()):
+def make_frame(columns: Sequence[str], values: Sequence[Sequence[float]], int_cols: Sequence[str] = (), index_kind: str = "default"):
+    """index_kind: 'default' (0..n-1) | 'reversed' (n-1..0) | 'offset' (7, 9, 11, ...) | 'float' (volume-like floats):
+    the row LABELS of the frame; a table is the same table whatever its labels (rows are positions = volumes)."""
     import pandas
     data = {}
     for name, col in zip(columns, values):
@@ -181,7 +189,12 @@ def make_frame(columns: Sequence[str], values: Sequence[Sequence[float]], int_co
         if name in int_cols:
             arr = arr.astype(numpy.int64)
         data[name] = arr
-    return pandas.DataFrame(data, columns=list(columns))
+    df = pandas.DataFrame(data, columns=list(columns))
+    n = len(df)
+    if index_kind == "reversed": df.index = list(range(n - 1, -1, -1))
+    elif index_kind == "offset": df.index = [7 + 2 * i for i in range(n)]
+    elif index_kind == "float": df.index = [100.5 - 3.25 * i for i in range(n)]
+    return df
 
 
 def classify(e: BaseException) -> str:
@@ -193,13 +206,14 @@ def classify(e: BaseException) -> str:
     return "error:" + type(e).__name__
 
 
-def run_impl(columns, values, system, kw=None, int_cols=(), cwd_dir: Optional[str] = None, user_file: bool = False):
+def run_impl(columns, values, system, kw=None, int_cols=(), cwd_dir: Optional[str] = None, user_file: bool = False,
+             index_kind: str = "default"):
     """Call the real fill_cij.  cwd_dir: run inside a fresh directory that contains a DIRECTORY of that name.
     user_file: `system` names a packaged system; a copy of its constraints file is written to a scratch path and
     that PATH is passed instead.  Returns {'status', 'columns', 'values'}."""
     from cij.util.fill import fill_cij
     kw = dict(kw or {})
-    df = make_frame(columns, values, int_cols)
+    df = make_frame(columns, values, int_cols, index_kind)
     old = os.getcwd()
     tmp = None
     arg = system
